@@ -2,5 +2,7 @@
 package all
 
 import (
+	_ "verif/props/c01"
 	_ "verif/props/c07"
+	_ "verif/props/smoke"
 )
